@@ -80,7 +80,7 @@ func c6Check(c *Ctx, lv map[string]int64) {
 	}
 	// entry level is the parameter
 	ef, efOK := entryAtCoreCheck(c)
-	c.Check(efOK && ef["Level"] == lvl.Name(), "R6.1", name, "entry-level-is-param", coreCheck.Pos(), "on every path the entry handed to Core.Check has the lvl parameter as its Level (%v)", ef)
+	c.Check(efOK && ef["Level"] == PN(lvl), "R6.1", name, "entry-level-is-param", coreCheck.Pos(), "on every path the entry handed to Core.Check has the lvl parameter as its Level (%v)", ef)
 	// early returns (not dominated by Core.Check)
 	lim := itoa(int(lv["DPanic"]))
 	for k, r := range Returns(fn) {
@@ -97,7 +97,7 @@ func c6Check(c *Ctx, lv map[string]int64) {
 	// calls (with the hook they attach, rendered along that path) and the return.
 	wtp, _ := c.ConstVal(CorePath, "WriteThenPanic")
 	wtf, _ := c.ConstVal(CorePath, "WriteThenFatal")
-	recv := fn.Params[0].Name()
+	recv := PN(fn.Params[0])
 	type want struct {
 		def int64
 		cfg string
@@ -150,7 +150,7 @@ func c6Check(c *Ctx, lv map[string]int64) {
 			cfg := ConcCfg{
 				Conc: func(d string) (int64, bool) {
 					switch d {
-					case lvl.Name(), "ent.Level":
+					case PN(lvl), "ent.Level":
 						return L, true
 					case recv + ".development":
 						if dev {
@@ -439,7 +439,7 @@ func c6FrontEnds(c *Ctx, lv map[string]int64) {
 		c.Check(Strip(Args(chk)[1]) == ssa.Value(fn.Params[1]), "R6.2", name, "checks-same-level", chk.Pos(), "Logger.Check is called with the helper's own lvl parameter")
 		// with the level fixed to each value from DPanic upwards, every path reaches Logger.Check
 		_ = lim
-		lp := fn.Params[1].Name()
+		lp := PN(fn.Params[1])
 		var skipping []string
 		nP := 0
 		for L := lv["DPanic"]; L <= lv["Fatal"]+1; L++ {
@@ -539,7 +539,7 @@ func c6FrontEnds(c *Ctx, lv map[string]int64) {
 			want := map[string]string{"Print": "Log", "Printf": "Logf", "Println": "Logln"}[m]
 			var viaLog ssa.Instruction
 			for _, cl := range Calls(fn) {
-				if IsCallTo(cl, "(*go.uber.org/zap.SugaredLogger)."+want) && strings.HasSuffix(Desc(Args(cl)[1]), ".level") && strings.HasPrefix(Desc(Args(cl)[1]), fn.Params[0].Name()+".") {
+				if IsCallTo(cl, "(*go.uber.org/zap.SugaredLogger)."+want) && strings.HasSuffix(Desc(Args(cl)[1]), ".level") && strings.HasPrefix(Desc(Args(cl)[1]), PN(fn.Params[0])+".") {
 					viaLog = cl
 				}
 			}
@@ -720,7 +720,7 @@ func c6Write(c *Ctx) {
 		c.Bad("R6.3", name, "shape", fn.Pos(), "expected Core.Write, hook.OnWrite and putCheckedEntry calls")
 		return
 	}
-	rc := fn.Params[0].Name()
+	rc := PN(fn.Params[0])
 	ok, over, why := LoopVisitsAll(coreWrite.Parent(), coreWrite)
 	var d1, d2 string
 	Bound(func() {
@@ -740,7 +740,7 @@ func c6Write(c *Ctx) {
 		}
 		c.Check(okT, "R6.3", mw.String(), "all-branches", pos, "a tee writes the entry to every branch whatever the earlier branches returned, so a terminal entry reaches every core before control is lost %s", whyT)
 	}
-	c.Check(d1 == rc+".Entry" && d2 == fn.Params[1].Name(), "R6.3", name, "same-entry-and-fields", coreWrite.Pos(), "each core receives ce.Entry and the caller's fields (%s, %s)", d1, d2)
+	c.Check(d1 == rc+".Entry" && d2 == PN(fn.Params[1]), "R6.3", name, "same-entry-and-fields", coreWrite.Pos(), "each core receives ce.Entry and the caller's fields (%s, %s)", d1, d2)
 	isAny := func(x ...*ssa.Call) func(ssa.Instruction) bool {
 		return func(i ssa.Instruction) bool {
 			for _, y := range x {
@@ -847,7 +847,7 @@ func c6Actions(c *Ctx) {
 			switch x := i.(type) {
 			case *ssa.Panic:
 				sawPanic = true
-				c.Check(armOf(i) == vals["WriteThenPanic"] && Desc(x.X) == "ce.Entry.Message", "R6.5", name, "panic-arm", x.Pos(), "WriteThenPanic panics with the entry's message (%s)", Desc(x.X))
+				c.Check(armOf(i) == vals["WriteThenPanic"] && len(fn.Params) >= 2 && Desc(x.X) == PN(fn.Params[1])+".Entry.Message", "R6.5", name, "panic-arm", x.Pos(), "WriteThenPanic panics with the entry's message (%s)", Desc(x.X))
 			case *ssa.Call:
 				if IsCallTo(x, "go.uber.org/zap/internal/exit.With") {
 					sawExit = true
@@ -1000,7 +1000,7 @@ func c6CrashSync(c *Ctx, rule string) {
 	if !c.Anchor(rule, "zapcore.ioCore.Write", fn != nil && len(fn.Params) == 3) {
 		return
 	}
-	entN := fn.Params[1].Name()
+	entN := PN(fn.Params[1])
 	errLvl, _ := c.ConstVal(CorePath, "ErrorLevel")
 	var bad []string
 	n := 0
